@@ -249,7 +249,10 @@ def sym_min(*args, **kw):
 def sym_isclose(a, b, rel_tol=1e-09, abs_tol=0.0):
     if not _any_sym((a, b)):
         return math.isclose(a, b, rel_tol=rel_tol, abs_tol=abs_tol)
-    return Cond("isclose", Sym.lift(a), Sym.lift(b), (Sym.lift(rel_tol).key, Sym.lift(abs_tol).key))
+    a, b = Sym.lift(a), Sym.lift(b)
+    if a.key == b.key:
+        return True          # isclose(x, x): |x - x| = 0 <= anything non-negative; no decision needed
+    return Cond("isclose", a, b, (Sym.lift(rel_tol).key, Sym.lift(abs_tol).key))
 
 
 class SymMath:
